@@ -695,7 +695,10 @@ func init() {
 	addKind(&kind{name: "basic", fam: "basic", class: cGeneral,
 		build: func(b *builder, l *logical) mat.Matrix { m := newBasic(l); return &m }})
 	addKind(&kind{name: "Transpose(basic)", fam: "basic", class: cGeneral, trans: "T",
-		build: func(b *builder, l *logical) mat.Matrix { m := newBasic(l.transposed()); return mat.Transpose{Matrix: &m} }})
+		build: func(b *builder, l *logical) mat.Matrix {
+			m := newBasic(l.transposed())
+			return mat.Transpose{Matrix: &m}
+		}})
 	rawMatOf := func(b *builder, l *logical) *rawMat { return &rawMat{basic: newBasic(l), g: b.rawGeneral(l)} }
 	addKind(&kind{name: "rawMatrixer", fam: "raw", class: cGeneral,
 		build: func(b *builder, l *logical) mat.Matrix { return rawMatOf(b, l) }})
@@ -852,7 +855,9 @@ func init() {
 	addKind(&kind{name: "tridiag.TBand", fam: "tridiag", class: cTridiag, shape: shSquare, trans: "T",
 		build: func(b *builder, l *logical) mat.Matrix { return b.tridiag(l.transposed()).TBand() }})
 	addKind(&kind{name: "rawTridiagonaler", fam: "raw", class: cTridiag, shape: shSquare,
-		build: func(b *builder, l *logical) mat.Matrix { return &rawTridiag{basic: newBasic(l), t: b.tridiagStorage(l)} }})
+		build: func(b *builder, l *logical) mat.Matrix {
+			return &rawTridiag{basic: newBasic(l), t: b.tridiagStorage(l)}
+		}})
 	addKind(&kind{name: "Transpose(rawTridiagonaler)", fam: "raw", class: cTridiag, shape: shSquare, trans: "T",
 		build: func(b *builder, l *logical) mat.Matrix {
 			lt := l.transposed()
@@ -947,7 +952,11 @@ func init() {
 	addKind(&kind{name: "LU", fam: "fact", class: cGeneral, shape: shSquare, approx: true, flavor: fWell,
 		build: func(b *builder, l *logical) mat.Matrix { var f mat.LU; f.Factorize(b.dense(l)); return &f }})
 	addKind(&kind{name: "LU.T", fam: "fact", class: cGeneral, shape: shSquare, approx: true, flavor: fWell, trans: "T",
-		build: func(b *builder, l *logical) mat.Matrix { var f mat.LU; f.Factorize(b.dense(l.transposed())); return f.T() }})
+		build: func(b *builder, l *logical) mat.Matrix {
+			var f mat.LU
+			f.Factorize(b.dense(l.transposed()))
+			return f.T()
+		}})
 	addKind(&kind{name: "QR", fam: "fact", class: cGeneral, shape: shTall, approx: true, flavor: fWell,
 		build: func(b *builder, l *logical) mat.Matrix { var f mat.QR; f.Factorize(b.dense(l)); return &f }})
 	addKind(&kind{name: "LQ", fam: "fact", class: cGeneral, shape: shWide, approx: true, flavor: fWell,
